@@ -90,7 +90,8 @@ def run_spec(prop, spec, rec=None):
             rec.count('spec_without_queries')
         return []
     outs = wbk.eval_formulas(b['sheets'], [q.formula for q in qs], sheet=b.get('sheet', b['sheets'][0]['title']),
-                             first_col=b.get('first_col', 12), ncols=b.get('ncols', 6), overrides=b.get('overrides'), on=b.get('on'))
+                             first_col=b.get('first_col', 12), ncols=b.get('ncols', 6), overrides=b.get('overrides'), on=b.get('on'),
+                             mode=b.get('mode', 'whole'))
     fails = []
     for i, (q, o) in enumerate(zip(qs, outs)):
         if rec:
